@@ -25,9 +25,28 @@ def coord_case(args):
         if kind == "at":
             e = build(it, tree, {})
             return it.call(it.getattr(e, "at"), [make_point_concrete(it, coords)], {})
+        if kind == "at-after-full":
+            from ..interp import InterpRaise as _IR
+            e = build(it, tree, {})
+            for prev in extra:
+                try:
+                    it.call(it.getattr(e, "at"), [make_point_concrete(it, prev)], {})
+                except _IR:
+                    pass
+            return it.call(it.getattr(e, "at"), [make_point_concrete(it, coords)], {})
         if kind == "at-number":
             e = build(it, tree, {})
             return it.call(it.getattr(e, "at"), [SymNum.of(1.5)], {})
+        if kind == "number-after-reuse":
+            u = build(it, tree, {})
+            other = it.call(cref(model, "Variable"), ["other"], {})
+            third = it.call(cref(model, "Variable"), ["third"], {})
+            it.call(cref(model, "Add"), [u, other], {})
+            it.call(cref(model, "Multiply"), [u, other, third], {})
+            it.call(cref(model, "Minus"), [it.call(cref(model, "Negation"), [u], {}), third], {})
+            it.binop("Mult", u, other)
+            it.call(cref(model, "Derivative"), [u], {})
+            return it.call(it.getattr(u, "at"), [SymNum.of(1.5)], {})
         if kind == "derivative-ctor":
             e = build(it, tree, {})
             it.call(cref(model, "Derivative"), [e], {})
@@ -80,6 +99,8 @@ def check(rep):
         ("Minus", x, x), ("Add", [x, ("Multiply", [y, z])]), ("NthPower", ("Sine", x), 2),
         ("Exponential", ("Negation", y), 2), ("Logarithm", ("Add", [("NthPower", x, 2), ("Constant", 1)]), 2),
         ("Multiply", [x, y, z]), ("Add", []), ("Multiply", []), ("Reciprocal", ("Add", [("NthPower", y, 2), ("Constant", 1)])),
+        ("Add", [("Multiply", [x, y]), ("Logarithm", z, 2)]), ("Multiply", [("Sine", x), ("Reciprocal", y)]),
+        ("Divide", ("Cosine", x), ("NthRoot", y, 2)),
     ]
     trees += [t for t in expression_pool(model, "quick") if t[0] in ("Minus", "Divide", "Add", "Multiply")][:10]
     cases = []
@@ -95,8 +116,17 @@ def check(rep):
         for k in range(len(vs)):
             for sub in itertools.combinations(vs, k):
                 cases.append(("at", t, {**{v: values[v] for v in sub}, "extra1": 7}, None, "not-a-number"))
+        # ... also when the same object was evaluated before at full points (one succeeding, one failing)
+        if len(vs) >= 2:
+            fails = {v: (-1.0 if i == len(vs) - 1 else values[v]) for i, v in enumerate(vs)}
+            for k in range(1, len(vs)):
+                for sub in itertools.combinations(vs, k):
+                    cases.append(("at-after-full", t, {v: values[v] for v in sub}, [full, fails, {**full, vs[-1]: 0}],
+                                  "not-a-number"))
         cases.append(("at-number", t, None, None, "accept" if len(vs) <= 1 else "reject"))
         cases.append(("derivative-ctor", t, None, None, "accept" if len(vs) <= 1 else "reject"))
+        if len(vs) <= 1:
+            cases.append(("number-after-reuse", t, None, None, "accept"))
         # differentiation w.r.t. occurring and non-occurring variables; the differentiation variable is
         # not supplied when it does not occur
         for route in ("Partial.at", "Partial(early).at", "LocatedDifferential.component",
@@ -108,9 +138,11 @@ def check(rep):
     results = pmap(coord_case, [(k, t, c, e) for (k, t, c, e, _w) in cases], chunksize=4)
     per = {}
     for (kind, t, coords, extra, want), res in zip(cases, results):
-        rule = {"varset": "C14.varsets", "at": "C14.coordinates", "at-number": "C14.arity", "derivative-ctor": "C14.arity",
+        rule = {"varset": "C14.varsets", "at": "C14.coordinates", "at-after-full": "C14.coordinates", "number-after-reuse": "C14.arity", "at-number": "C14.arity", "derivative-ctor": "C14.arity",
                 "route": "C14.coordinates", "name": "C14.names"}[kind]
-        construct = {"varset": f"{t[0]}.__init__" if t else "", "at": "Expression.at", "at-number": "Expression.at(number)",
+        construct = {"varset": f"{t[0]}.__init__" if t else "", "at": "Expression.at",
+                     "at-after-full": "Expression.at after evaluations at full points",
+                     "number-after-reuse": "Expression.at(number) after the expression became an operand elsewhere", "at-number": "Expression.at(number)",
                      "derivative-ctor": "Derivative.__init__", "route": extra[0] if kind == "route" else "",
                      "name": "coordinate name"}[kind]
         d = per.setdefault((rule, construct), [0, 0])
@@ -143,7 +175,7 @@ def check(rep):
                     ok = False
             elif want in ("accept", "reject"):
                 got = "reject" if r["outcome"] == "raise" else "accept"
-                if got != want or (want == "accept" and kind == "at-number" and not r.get("is_number")):
+                if got != want or (want == "accept" and kind in ("at-number", "number-after-reuse") and not r.get("is_number")):
                     # a DomainError at the number is still an acceptance of the number
                     if want == "accept" and r["outcome"] == "raise" and r["exc"] == "DomainError":
                         continue
